@@ -65,6 +65,11 @@ def load_known(prop):
 def eval_pred(pred, env):
     """evaluate a known-finding signature predicate (python expression over the
     obligation's input names) in `env`; undefined names -> None (n/a)."""
+    if pred.startswith('fn:'):
+        # 'fn:<harness module>:<function>' -- function(env) -> SBool / bool / None
+        _, modname, fname = pred.split(':')
+        mod = importlib.import_module('harness.' + modname)
+        return getattr(mod, fname)(env)
     try:
         return eval(pred, {'__builtins__': {}}, env)
     except NameError:
@@ -261,7 +266,7 @@ def expand_shards(obs, prop, known, jobs):
 def write_replay(prop, ob, viol):
     d = os.path.join(VERIF, 'replays', prop)
     os.makedirs(d, exist_ok=True)
-    payload = {'property': prop, 'obligation': ob.name, 'claim': viol['claim'],
+    payload = {'property': prop, 'obligation': ob.name.split('#')[0], 'claim': viol['claim'],
                'inputs': viol['inputs'], 'detail': viol.get('detail')}
     h = hashlib.sha256(json.dumps(payload, sort_keys=True).encode()).hexdigest()[:12]
     path = os.path.join(d, '%s-%s.json' % (ob.name.replace('/', '_'), h))
